@@ -195,6 +195,7 @@ protected:
 		const char *_fileline;
 		unsigned _val{};
 		Tickval _when{true};
+		bool _exit{}; // set on the element stop() queues; an empty _str is an ordinary (blank) line
 
 		LogElement(const thread_id_t tid, const std::string& str, Level level, const char *fl=nullptr, const unsigned val=0)
 			: _tid(tid), _str(str), _level(level), _fileline(fl), _val(val) {}
@@ -202,7 +203,7 @@ protected:
 			: _tid(tid), _str(str), _level(Info), _fileline(), _val(val) {}
 		LogElement() : _tid(), _level(Info),_fileline() {}
 		LogElement(const LogElement& from) : _tid(from._tid), _str(from._str), _level(from._level), _fileline(from._fileline),
-			_val(from._val), _when(from._when) {}
+			_val(from._val), _when(from._when), _exit(from._exit) {}
 		LogElement& operator=(const LogElement& that)
 		{
 			if (this != &that)
@@ -213,6 +214,7 @@ protected:
 				_fileline = that._fileline;
 				_val = that._val;
 				_when = that._when;
+				_exit = that._exit;
 			}
 			return *this;
 		}
@@ -309,7 +311,14 @@ public:
 		{ return is_loggable(lev) ? enqueue(what, lev, fl, val) : true; }
 
 	/// Stop the logging thread.
-	void stop() { _stopping.request_stop(); enqueue(std::string()); _thread.join(); }
+	void stop()
+	{
+		_stopping.request_stop();
+		LogElement le;
+		le._exit = true;
+		_msg_queue.try_push(le);
+		_thread.join();
+	}
 
 	/*! Perform logfile rotation. Only relevant for file-type loggers.
 		\param force the rotation (even if the file is set to append)
